@@ -64,6 +64,21 @@ def replay_cppgen_case(case):
     d = case['d']
     bad = []
     try:
+        if d['kind'] in ('section', 'includes', 'member'):
+            if d['kind'] == 'section':
+                lines = ['int x;', 'int y;'][:d['lines']]
+                spec = {'': cpp.AccessSpecifier.ANONYMOUS, 'public': cpp.AccessSpecifier.PUBLIC,
+                        'protected': cpp.AccessSpecifier.PROTECTED, 'private': cpp.AccessSpecifier.PRIVATE}[d['spec']]
+                text = str(cpp.AccessSpecifiedSection(access_specifier=spec, contents=TextBlock(lines)))
+            elif d['kind'] == 'includes':
+                names = [n['raw'] for n in d['names']]
+                text = str((cpp.SystemIncludes if d['system'] else cpp.ProjectIncludes)(names))
+            else:
+                text = str(cpp.MemberVariable(make_type(cpp, scoping, d['type']), d['name']))
+            got = tokenize(text)
+            if got != case['toks']:
+                bad.append((d['kind'], text_of(case['toks']), text_of(got)))
+            return bad
         if d['kind'] == 'block':
             lines = ['int x;', 'int y;'][:d['lines']]
             nsp = cpp.Namespace(scoping.ns_ids_t(list(d['ids'])), contents=TextBlock(lines))
@@ -172,14 +187,15 @@ def check_c20(tier, seed):
                 'invariants; the real as_decl/as_def/str() are tokenised and compared with the model token sequences; '
                 'compositions of <=4 well-formed members in a class in a namespace are compiled with g++ -fsyntax-only.')
     pools = {}
-    for mode in ('function', 'ctor', 'dtor', 'block'):
+    for mode in ('function', 'ctor', 'dtor', 'block', 'parts'):
         res = chk.tlc('CppGenCases', f'CppGen_{mode}.cfg')
         cases = res.emitted()
         if not cases:
             raise core.MachineryError(f'{mode}: no cases')
         chk.sample(cases[len(cases) // 2])
         replay_parallel(chk, cases, replay_cppgen_case, mode, lambda c: json.dumps(c['d'], sort_keys=True))
-        pools[mode] = [c['d'] for c in cases if c.get('valid') and well_formed_cpp(c['d'])]
+        if mode != 'parts':
+            pools[mode] = [c['d'] for c in cases if c.get('valid') and well_formed_cpp(c['d'])]
         chk.traces += len(cases)
     rng = random.Random(seed + 20)
     jobs = []
